@@ -24,7 +24,9 @@ func init() {
 		"is justified by a nil guard on the same path in the same function, or — followed up through parameters, struct fields of call results and DeepCopy — by the IsDefaulted gate on the same object together with one of the recogniser's false-paths that names the field; "+
 		"(R4) every integer division or remainder in that code has a non-zero constant divisor or a dominating positivity/non-zero fact on the divisor (one named exception with its structural premises checked); "+
 		"(R5) every function returning *strategy.Result reachable from the replica-set Reconcile returns, on every path, a non-nil Result whose NewStatus has been assigned a non-nil value, the role dispatcher's nil fall-through is infeasible because the role field only ever holds the dispatched constants, and Parameters.NewStatus is built from a non-nil value; "+
-		"(R6) ValidateExtendedDaemonSetSpec returns nil only on paths that refute each of the four documented rejection conditions, and each sentinel error is returned under its condition.", runC16)
+		"(R6) ValidateExtendedDaemonSetSpec (with the validators it runs, directly or from a table) returns nil only on paths that refute each of the four documented rejection conditions, and each sentinel error is returned under its condition; "+
+		"(R7) the rejections are enforced on every reconcile: each API write reachable from the ExtendedDaemonSet Reconcile is — in its own function or, followed up through every call site, in a caller — dominated by the fact ValidateExtendedDaemonSetSpec(spec of the object) == nil, "+
+		"or by the non-nil result of a helper that returns the object only under that fact, the one exception being writes under !IsDefaultedExtendedDaemonSet (the defaulting update, which precedes validation by design).", runC16)
 }
 
 func runC16(r *Run) {
@@ -33,6 +35,8 @@ func runC16(r *Run) {
 	r.RuleDoc("C16.R3", "optional spec pointer fields are dereferenced only under a nil guard or behind the IsDefaulted gate that requires them")
 	r.RuleDoc("C16.R4", "integer divisors are non-zero constants or carry a dominating positivity fact")
 	r.RuleDoc("C16.R5", "strategy results are non-nil with NewStatus assigned on every return path; the role dispatch is exhaustive")
+	r.RuleDoc("C16.R7", "every API write of the ExtendedDaemonSet reconcile (the defaulting update aside) happens only after ValidateExtendedDaemonSetSpec accepted the reconciled object's spec")
+	r.Floor("C16.R7", 4)
 	r.RuleDoc("C16.R6", "validation returns nil only when each documented rejection condition is refuted; each sentinel error has its condition")
 	r.Floor("C16.R1", 17)
 	r.Floor("C16.R2", 16)
@@ -46,6 +50,7 @@ func runC16(r *Run) {
 	c16RetNonNilMemo = map[string]int{}
 	c16ParamDerefMemo = map[string]int{}
 	c16ValidationTable(r)
+	c16ValidationGate(r)
 	c16Division(r)
 	c16DefiniteInit(r)
 	c16GuardedStores(r)
@@ -1583,6 +1588,16 @@ func (rs c16Reason) String() string {
 
 // c16Reasons reads the false-paths of a boolean recogniser with one pointer parameter.
 func c16Reasons(r *Run, fn *ssa.Function, depth int) ([]c16Reason, []string) {
+	return c16RecPaths(r, fn, false, depth)
+}
+
+// c16RecPaths reads the paths on which a boolean recogniser with one pointer parameter answers
+// `want`, each as the conjunction of the literals known on the path (sub-recognisers that gave the
+// same answer are expanded in place). For want=false the literals are pruned to the deciding ones
+// (a weaker conjunction only makes the fixed-point check stricter); for want=true every literal is
+// kept and uninterpreted conditions are simply left out (a weaker alternative only makes a
+// consumer that relies on the recogniser's "true" more demanding).
+func c16RecPaths(r *Run, fn *ssa.Function, want bool, depth int) ([]c16Reason, []string) {
 	var undecided []string
 	if fn == nil || len(fn.Blocks) == 0 || len(fn.Params) != 1 || depth > 4 {
 		return nil, []string{"recogniser " + funcName(fn) + " has no body, more than one parameter, or is nested too deep"}
@@ -1600,7 +1615,7 @@ func c16Reasons(r *Run, fn *ssa.Function, depth int) ([]c16Reason, []string) {
 		if rs, ok := subMemo[callee]; ok {
 			return rs
 		}
-		rs, und := c16Reasons(r, callee, depth+1)
+		rs, und := c16RecPaths(r, callee, want, depth+1)
 		undecided = append(undecided, und...)
 		subMemo[callee] = rs
 		return rs
@@ -1632,14 +1647,14 @@ func c16Reasons(r *Run, fn *ssa.Function, depth int) ([]c16Reason, []string) {
 			facts = append(facts, f)
 		}
 		if b, isC := constBool(res); isC {
-			if b {
+			if b != want {
 				continue
 			}
 		} else if _, _, _, isRec := isRecogniserCall(res); isRec {
 			extraFalse = res
 		} else if _, isCmp := res.(*ssa.BinOp); isCmp {
-			// `return x != nil`: the answer is false exactly when the comparison is
-			facts = append(facts, p.k.normCond(res, false)...)
+			// `return x != nil`: the answer is `want` exactly when the comparison is
+			facts = append(facts, p.k.normCond(res, want)...)
 		} else {
 			undecided = append(undecided, fmt.Sprintf("%s returns a non-constant value at %s", shortFunc(fn), r.Prog.Pos(instrPos(ret))))
 			continue
@@ -1689,12 +1704,14 @@ func c16Reasons(r *Run, fn *ssa.Function, depth int) ([]c16Reason, []string) {
 				continue
 			}
 			if _, _, _, isRec := isRecogniserCall(f.V); isRec {
-				if !f.Pol {
+				if f.Pol == want {
 					addCallFalse(f.V)
 				}
-				continue // a sub-recogniser that answered true only narrows the reason: dropping it is conservative
+				continue // a sub-recogniser that gave the other answer only narrows the path: dropping it is conservative
 			}
-			base.Notes = append(base.Notes, "uninterpreted condition "+f.Key)
+			if !want {
+				base.Notes = append(base.Notes, "uninterpreted condition "+f.Key)
+			}
 		}
 		// contradictory literals: the path cannot be taken
 		for i, a := range base.Lits {
@@ -1725,7 +1742,9 @@ func c16Reasons(r *Run, fn *ssa.Function, depth int) ([]c16Reason, []string) {
 			cur = next
 		}
 		for _, c := range cur {
-			c.Lits = c16Prune(c.Lits)
+			if !want {
+				c.Lits = c16Prune(c.Lits)
+			}
 			if k := c.String(); !seen[k] {
 				seen[k] = true
 				out = append(out, c)
@@ -2880,7 +2899,7 @@ func c16DerefUses(r *Run, v ssa.Value) []c16Use {
 
 type c16Resolver struct {
 	r       *Run
-	reasons []c16Reason
+	reasons []c16Reason // the paths on which the recogniser answers true (alternatives)
 	rec     *ssa.Function
 	sites   map[*ssa.Function]bool
 	facts   map[*ssa.Function]*FuncFacts
@@ -3115,77 +3134,73 @@ func (rv *c16Resolver) resolve(fn *ssa.Function, site ssa.Instruction, root ssa.
 	return false, fmt.Sprintf("no nil guard, and the object (%T) cannot be traced to a gated ExtendedDaemonSet", root) + trail
 }
 
-// c16Derive: the recogniser answered true, so every false-path conjunction is refuted. Starting
-// from the literals known at the site (and: the parents of the dereferenced field are non-nil),
-// unit propagation over those refuted conjunctions must yield goal != nil.
-func c16Derive(reasons []c16Reason, known []c16Lit, goal []string) (bool, string) {
-	facts := map[string]c16Lit{}
-	for _, l := range known {
-		facts[l.String()] = l
+// c16Derive: the recogniser answered true, so the facts of one of its true-paths hold. Every
+// true-path that is compatible with what is known at the site (and with: the parents of the
+// dereferenced field are non-nil) must itself establish goal != nil — by testing it, or by testing
+// something below it, which the recogniser could not do without dereferencing it.
+func c16Derive(trueAlts []c16Reason, known []c16Lit, goal []string) (bool, string) {
+	if len(trueAlts) == 0 {
+		return false, "the recogniser has no analysable path answering true"
 	}
-	isTrue := func(l c16Lit) bool {
-		if _, ok := facts[l.String()]; ok {
-			return true
-		}
-		if l.Kind == "nil" && !l.Pol && len(l.Path) < len(goal) && c16HasPrefix(goal, l.Path) {
-			return true
-		}
-		if l.Kind == "str" && !l.Pol {
-			for _, f := range facts {
-				if f.Kind == "str" && f.Pol && f.Str != l.Str && c16PathEq(f.Path, l.Path) {
-					return true
-				}
+	isKnown := func(l c16Lit) bool {
+		for _, k := range known {
+			if k.Kind == l.Kind && k.Str == l.Str && k.Pol == l.Pol && c16PathEq(k.Path, l.Path) {
+				return true
+			}
+			// a string known equal to another constant
+			if l.Kind == "str" && !l.Pol && k.Kind == "str" && k.Pol && k.Str != l.Str && c16PathEq(k.Path, l.Path) {
+				return true
 			}
 		}
-		return false
+		return l.Kind == "nil" && !l.Pol && len(l.Path) < len(goal) && c16HasPrefix(goal, l.Path)
 	}
-	want := c16Lit{Path: goal, Kind: "nil", Pol: false}
-	used := ""
-	for iter := 0; iter < 30 && !isTrue(want); iter++ {
-		progress := false
-		for _, rs := range reasons {
-			if len(rs.Notes) > 0 {
-				continue
-			}
-			var open []c16Lit
-			for _, l := range rs.Lits {
-				if !isTrue(l) {
-					open = append(open, l)
-				}
-			}
-			if len(open) != 1 {
-				continue
-			}
-			neg := open[0]
+	nAlive := 0
+	for _, alt := range trueAlts {
+		// compatible with the known facts?
+		dead := false
+		for _, l := range alt.Lits {
+			neg := l
 			neg.Pol = !neg.Pol
-			if !isTrue(neg) {
-				facts[neg.String()] = neg
-				progress = true
-				if neg.String() == want.String() {
-					used = rs.String()
+			if isKnown(neg) {
+				dead = true
+			}
+			if l.Kind == "str" && l.Pol {
+				for _, k := range known {
+					if k.Kind == "str" && k.Pol && k.Str != l.Str && c16PathEq(k.Path, l.Path) {
+						dead = true
+					}
 				}
 			}
 		}
-		if !progress {
-			break
+		if dead {
+			continue
 		}
-	}
-	if isTrue(want) {
-		return true, "refuted false-path: " + used
-	}
-	// explain: the closest reason naming the field
-	for _, rs := range reasons {
-		if c16HasLit(rs.Lits, goal, "nil", "", true) {
+		nAlive++
+		established := false
+		for _, l := range alt.Lits {
+			if l.Kind == "nil" && !l.Pol && c16PathEq(l.Path, goal) {
+				established = true
+			}
+			if len(l.Path) > len(goal) && c16HasPrefix(l.Path, goal) {
+				established = true
+			}
+		}
+		if !established {
 			var miss []string
-			for _, l := range rs.Lits {
-				if !isTrue(l) && !(l.Kind == "nil" && l.Pol && c16PathEq(l.Path, goal)) {
-					miss = append(miss, l.String())
-				}
+			for _, l := range alt.Lits {
+				miss = append(miss, l.String())
 			}
-			return false, "the gate requires " + strings.Join(goal, ".") + " only when " + strings.Join(miss, " ∧ ") + ", which is not established at the dereference"
+			sort.Strings(miss)
+			if len(miss) > 6 {
+				miss = append(miss[:6], "…")
+			}
+			return false, "the recogniser also answers true on the path [" + strings.Join(miss, " ∧ ") + "], which does not require " + strings.Join(goal, ".") + " to be set"
 		}
 	}
-	return false, "the IsDefaulted gate holds but no false-path of the recogniser requires " + strings.Join(goal, ".") + " to be set"
+	if nAlive == 0 {
+		return false, "no path of the recogniser answering true is compatible with the facts at the dereference"
+	}
+	return true, fmt.Sprintf("required on each of the %d compatible true-path(s) of the recogniser", nAlive)
 }
 
 // nonNilAt: forward must-analysis for one field path — is root.path non-nil whenever control
@@ -3398,7 +3413,11 @@ func c16Deref(r *Run, reasons []c16Reason) {
 	for fn := range reach {
 		sites[fn] = true
 	}
-	rv := &c16Resolver{r: r, reasons: c16Minimal(reasons), rec: rec, sites: sites, facts: map[*ssa.Function]*FuncFacts{}, ws: newWriteSummary(r.Prog)}
+	trueAlts, und := c16RecPaths(r, rec, true, 0)
+	for _, u := range und {
+		r.Undecided("C16.R3", "recogniser shape", r.Prog.Pos(rec.Pos()), shortFunc(rec), u)
+	}
+	rv := &c16Resolver{r: r, reasons: trueAlts, rec: rec, sites: sites, facts: map[*ssa.Function]*FuncFacts{}, ws: newWriteSummary(r.Prog)}
 	for _, fn := range sortedFuncs(sites) {
 		if !r.Prog.IsRuleSite(fn) {
 			continue
@@ -3480,5 +3499,208 @@ func c16Deref(r *Run, reasons []c16Reason) {
 			r.Check("C16.R3", "deref "+k, r.Prog.Pos(instrPos(g.first)), shortFunc(fn),
 				"optional field "+g.field+" is dereferenced only where a nil guard or the IsDefaulted gate makes it non-nil", g.ok, detail)
 		}
+	}
+}
+
+// ---------------------------------------------------------------------------------------------
+// R7 validation dominates every action of the ExtendedDaemonSet reconcile
+
+func c16ValidationGate(r *Run) {
+	eds := r.Prog.Method(pkgEDS, "Reconciler", "Reconcile")
+	val := r.Prog.Func(pkgAPI, "ValidateExtendedDaemonSetSpec")
+	rec := r.Prog.Func(pkgAPI, "IsDefaultedExtendedDaemonSet")
+	if eds == nil || val == nil || rec == nil {
+		r.Fatal("anchors of the validation gate not found")
+		return
+	}
+	reach := dReachable(r.Prog, eds)
+	// the objects read from the API during this reconcile
+	fetched := map[ssa.Value]bool{}
+	for _, e := range effectsOf(reach) {
+		if e.Verb == "Get" {
+			for _, c := range dChains(e.Obj, true) {
+				fetched[c.Root] = true
+			}
+		}
+	}
+	// a fetched object, possibly handed back by a repository helper or received as a parameter
+	var isFetched func(root ssa.Value, depth int) bool
+	isFetched = func(root ssa.Value, depth int) bool {
+		if fetched[root] {
+			return true
+		}
+		if depth > 3 {
+			return false
+		}
+		var call *ssa.Call
+		idx := 0
+		switch y := root.(type) {
+		case *ssa.Call:
+			call = y
+		case *ssa.Extract:
+			call, _ = y.Tuple.(*ssa.Call)
+			idx = y.Index
+		case *ssa.Parameter:
+			sites := dCallSitesIn(r.Prog, y.Parent(), reach)
+			if len(sites) == 0 {
+				return false
+			}
+			for _, cs := range sites {
+				for _, ch := range dChains(cs.Common().Args[paramIndex(y)], true) {
+					if !isFetched(ch.Root, depth+1) {
+						return false
+					}
+				}
+			}
+			return true
+		}
+		if call == nil {
+			return false
+		}
+		h := staticCallee(&call.Call)
+		if h == nil || !r.Prog.IsRepoFunc(h) || len(h.Blocks) == 0 {
+			return false
+		}
+		n := 0
+		for _, rt := range dNormalReturns(h) {
+			if idx >= len(rt.Results) {
+				return false
+			}
+			if c, isC := unwrap(rt.Results[idx]).(*ssa.Const); isC && c.IsNil() {
+				continue
+			}
+			for _, ch := range dChains(rt.Results[idx], true) {
+				if !isFetched(ch.Root, depth+1) {
+					return false
+				}
+			}
+			n++
+		}
+		return n > 0
+	}
+	isValidated := func(v ssa.Value, _ string) bool {
+		return isNilCompareOf(v, func(x ssa.Value) bool {
+			c := c16ErrCall(x)
+			if c == nil || staticCallee(&c.Call) != val || len(c.Call.Args) != 1 {
+				return false
+			}
+			// what is validated is the spec of an object fetched in this reconcile
+			for _, ch := range dChains(c.Call.Args[0], true) {
+				if !isFetched(ch.Root, 0) {
+					return false
+				}
+			}
+			return true
+		})
+	}
+	isDefaultedCall := func(v ssa.Value, _ string) bool {
+		c, ok := v.(*ssa.Call)
+		return ok && staticCallee(&c.Call) == rec
+	}
+	var justified func(fn *ssa.Function, site ssa.Instruction, depth int, seen map[*ssa.Function]bool) (bool, string)
+	justified = func(fn *ssa.Function, site ssa.Instruction, depth int, seen map[*ssa.Function]bool) (bool, string) {
+		ff := r.Prog.factsOf(fn)
+		b := site.Block()
+		if ff.Holds(b, true, isValidated) {
+			return true, "validated in " + shortFunc(fn)
+		}
+		if ff.Holds(b, false, isDefaultedCall) {
+			return true, "under !IsDefaultedExtendedDaemonSet in " + shortFunc(fn) + " (defaulting precedes validation)"
+		}
+		// the non-nil result of a helper that hands the object back only after validating it
+		for _, f := range ff.At(b) {
+			if f.Pol {
+				continue
+			}
+			bo, ok := f.V.(*ssa.BinOp)
+			if !ok || (bo.Op != token.EQL && bo.Op != token.NEQ) {
+				continue
+			}
+			x := bo.X
+			if isNilConst(x) {
+				x = bo.Y
+			} else if !isNilConst(bo.Y) {
+				continue
+			}
+			var call *ssa.Call
+			idx := 0
+			switch y := unwrap(x).(type) {
+			case *ssa.Call:
+				call = y
+			case *ssa.Extract:
+				call, _ = y.Tuple.(*ssa.Call)
+				idx = y.Index
+			}
+			if call == nil {
+				continue
+			}
+			h := staticCallee(&call.Call)
+			if h == nil || !r.Prog.IsRepoFunc(h) || len(h.Blocks) == 0 {
+				continue
+			}
+			hf := r.Prog.factsOf(h)
+			all, n := true, 0
+			for _, rt := range dNormalReturns(h) {
+				if idx >= len(rt.Results) {
+					all = false
+					continue
+				}
+				if c, isC := unwrap(rt.Results[idx]).(*ssa.Const); isC && c.IsNil() {
+					continue
+				}
+				n++
+				if !hf.Holds(rt.Block(), true, isValidated) {
+					all = false
+				}
+			}
+			if all && n > 0 {
+				return true, "after the non-nil result of " + shortFunc(h) + ", which returns the object only once validated"
+			}
+		}
+		if fn == eds {
+			return false, "no dominating fact ValidateExtendedDaemonSetSpec(...) == nil in " + shortFunc(fn)
+		}
+		if depth > 6 || seen[fn] {
+			return false, "call chain too deep"
+		}
+		seen[fn] = true
+		defer delete(seen, fn)
+		sites := dCallSitesIn(r.Prog, fn, reach)
+		if fn.Parent() != nil {
+			// a closure: where it is created
+			for _, mc := range r.Prog.closureSites(fn) {
+				if ok, why := justified(mc.Parent(), mc, depth+1, seen); !ok {
+					return false, why + " ← closure " + shortFunc(fn)
+				}
+			}
+			if len(sites) == 0 {
+				return len(r.Prog.closureSites(fn)) > 0, "closure created under validation"
+			}
+		}
+		if len(sites) == 0 {
+			return false, "no call site of " + shortFunc(fn) + " within the reconcile"
+		}
+		why := ""
+		for _, cs := range sites {
+			ok, w := justified(cs.Parent(), cs, depth+1, seen)
+			if !ok {
+				return false, w + " ← " + shortFunc(fn)
+			}
+			why = w
+		}
+		return true, why + " ← " + shortFunc(fn)
+	}
+	n := 0
+	for _, e := range effectsOf(reach) {
+		if !isWriteVerb(e.Verb) {
+			continue
+		}
+		n++
+		ok, why := justified(e.Fn, e.Call, 0, map[*ssa.Function]bool{})
+		r.Check("C16.R7", e.String()+" after validation", r.Prog.Pos(e.Call.Pos()), shortFunc(e.Fn),
+			"an API write of the ExtendedDaemonSet reconcile happens only after ValidateExtendedDaemonSetSpec accepted the spec (so an invalid strategy is rejected on every reconcile, not acted upon)", ok, why)
+	}
+	if n == 0 {
+		r.Check("C16.R7", "writes", r.Prog.Pos(eds.Pos()), shortFunc(eds), "the reconcile performs API writes", false, "none found")
 	}
 }
